@@ -566,9 +566,15 @@ package validate
 //@   ensures[C04] implies(other != nil && other != emptyResult, redeemed(other) == old(other.wantsRedeemOnMerge))
 //@   ensures[C04] (arr(r.Errors) == old(arr(r.Errors)) || fresh(arr(r.Errors))) && (arr(r.Warnings) == old(arr(r.Warnings)) || fresh(arr(r.Warnings)))
 //@ func (*Result).keepRelevantErrors
-//@   requires[C06] nonnilE(r.Errors) && nonnilE(r.Warnings)
-//@   modifies *
-//@   ensures[C06] result != nil
+//@   effects validation
+//@   reveal wfErrs
+//@   requires[C06] r != nil && wfErrs(r.Errors) && wfErrs(r.Warnings)
+//@   requires[C04] ownsArrays(r)
+//@   ensures[C06,C04] result != nil && result != emptyResult && result != r && !redeemed(result) && fromPool(result)
+//@   ensures[C04] ownsArrays(result) && sepEW(result) && result.wantsRedeemOnMerge == old(r.wantsRedeemOnMerge)
+//@   ensures[C04] !redeemed(r) && unchanged(all(r))
+//@   loop 1 invariant fresh(arr(strippedErrors)) && arr(strippedErrors) != nil
+//@   loop 2 invariant fresh(arr(strippedErrors)) && arr(strippedErrors) != nil && fresh(arr(strippedWarnings)) && arr(strippedWarnings) != nil && arr(strippedWarnings) != arr(strippedErrors)
 
 // NOTE: deliberately coarse (modifies *): with a pure contract the eight unrolled iterations of the slot loop in
 // (*SchemaValidator).Validate nest eight merge diamonds and VC generation takes minutes; forgetting the heap here
@@ -580,6 +586,72 @@ package validate
 //@ func (*schemaPropsValidator).validateDependencies
 //@   requires[C06] typeis(data, "map[string]interface{}")
 //@   modifies *
+
+// helpers of schemaPropsValidator.Validate (allOf / not; anyOf / oneOf see below)
+//@ pred nilOrEntry(e *SchemaValidator) = e == nil || entryOK(e)
+//@ pred resP(r *Result) = r != nil && r != emptyResult && !redeemed(r) && wfRes(r)
+//@ pred ownsList(s *schemaPropsValidator, l []*SchemaValidator) = arr(l) == nil || owner(arr(l)) == s
+//@ pred arrsOK(r *Result) = (arr(r.Errors) == old(arr(r.Errors)) || fresh(arr(r.Errors))) && (arr(r.Warnings) == old(arr(r.Warnings)) || fresh(arr(r.Warnings)))
+//@ pred entriesExist(l []*SchemaValidator) = forall(a, 0, len(l), existed(l[a]))
+//@ pred entriesApart(l []*SchemaValidator) = forall(a, 0, len(l), forall(b, 0, len(l), implies(a != b, !desc(l[a], l[b]))))
+//@ func (*schemaPropsValidator).validateAllOf
+//@   effects validation
+//@   maypanic
+//@   requires[C06] isJSON(data)
+//@   requires[C04,C06] entriesOK(s.allOfValidators) && entriesApart(s.allOfValidators) && entriesExist(s.allOfValidators) && ownsList(s, s.allOfValidators) && resP(mainResult) && resP(keepResultAllOf) && mainResult != keepResultAllOf
+//@   modifies all(mainResult), elems(mainResult.Errors), elems(mainResult.Warnings), all(keepResultAllOf), elems(keepResultAllOf.Errors), elems(keepResultAllOf.Warnings)
+//@   ensures[C04] resP(mainResult) && resP(keepResultAllOf) && !redeemed(s) && arrsOK(mainResult) && arrsOK(keepResultAllOf)
+//@   ensures[C04] forall(k, 0, len(s.allOfValidators), ite(old(s.Options.recycleValidators), s.allOfValidators[k] == nil, s.allOfValidators[k] == old(s.allOfValidators[k])))
+//@   ensures[C08] implies(!old(s.Options.recycleValidators), unchanged(all(s)))
+//@   loop 1 invariant[C04] resP(mainResult) && resP(keepResultAllOf) && !redeemed(s) && unchanged(all(s)) && ownsList(s, s.allOfValidators) && arrsOK(mainResult) && arrsOK(keepResultAllOf)
+//@   loop 1 invariant[C04] forall(k, idx1 + 1, len(s.allOfValidators), s.allOfValidators[k] == old(s.allOfValidators[k]))
+//@   loop 1 invariant[C04] forall(k, idx1 + 1, len(s.allOfValidators), !redeemed(old(s.allOfValidators[k])))
+//@   loop 1 invariant[C04] forall(k, idx1 + 1, len(s.allOfValidators), readySV(old(s.allOfValidators[k])))
+//@   loop 1 invariant[C04] forall(k, 0, idx1 + 1, ite(old(s.Options.recycleValidators), s.allOfValidators[k] == nil, s.allOfValidators[k] == old(s.allOfValidators[k])))
+//@ func (*schemaPropsValidator).validateAnyOf
+//@   effects validation
+//@   maypanic
+//@   requires[C06] isJSON(data)
+//@   requires[C04,C06] entriesOK(s.anyOfValidators) && entriesApart(s.anyOfValidators) && entriesExist(s.anyOfValidators) && ownsList(s, s.anyOfValidators) && resP(mainResult) && resP(keepResultAnyOf) && mainResult != keepResultAnyOf
+//@   modifies all(mainResult), elems(mainResult.Errors), elems(mainResult.Warnings), all(keepResultAnyOf), elems(keepResultAnyOf.Errors), elems(keepResultAnyOf.Warnings), mapof(keepResultAnyOf.cachedFieldSchemata), mapof(keepResultAnyOf.cachedItemSchemata)
+//@   ensures[C04] resP(mainResult) && resP(keepResultAnyOf) && !redeemed(s) && arrsOK(mainResult) && arrsOK(keepResultAnyOf)
+//@   ensures[C04] forall(k, 0, len(s.anyOfValidators), s.anyOfValidators[k] == nil || s.anyOfValidators[k] == old(s.anyOfValidators[k]))
+//@   ensures[C04] forall(k, 0, len(s.anyOfValidators), implies(!old(s.Options.recycleValidators), s.anyOfValidators[k] == old(s.anyOfValidators[k])))
+//@   ensures[C04] forall(k, 0, len(s.anyOfValidators), implies(old(s.Options.recycleValidators) && s.anyOfValidators[k] != nil, !redeemed(old(s.anyOfValidators[k])) && readySV(old(s.anyOfValidators[k]))))
+//@   ensures[C08] implies(!old(s.Options.recycleValidators), unchanged(all(s)))
+//@   loop 1 invariant[C04] resP(mainResult) && resP(keepResultAnyOf) && !redeemed(s) && unchanged(all(s)) && ownsList(s, s.anyOfValidators) && arrsOK(mainResult) && arrsOK(keepResultAnyOf)
+//@   loop 1 invariant[C04] forall(k, idx1 + 1, len(s.anyOfValidators), s.anyOfValidators[k] == old(s.anyOfValidators[k]))
+//@   loop 1 invariant[C04] forall(k, idx1 + 1, len(s.anyOfValidators), !redeemed(old(s.anyOfValidators[k])))
+//@   loop 1 invariant[C04] forall(k, idx1 + 1, len(s.anyOfValidators), readySV(old(s.anyOfValidators[k])))
+//@   loop 1 invariant[C04] forall(k, 0, idx1 + 1, ite(old(s.Options.recycleValidators), s.anyOfValidators[k] == nil, s.anyOfValidators[k] == old(s.anyOfValidators[k])))
+//@   loop 1 invariant[C04] bestFailures == nil || liveRes(bestFailures)
+//@ func (*schemaPropsValidator).validateOneOf
+//@   effects validation
+//@   maypanic
+//@   requires[C06] isJSON(data)
+//@   requires[C04,C06] entriesOK(s.oneOfValidators) && entriesApart(s.oneOfValidators) && entriesExist(s.oneOfValidators) && ownsList(s, s.oneOfValidators) && resP(mainResult) && resP(keepResultOneOf) && mainResult != keepResultOneOf
+//@   modifies all(mainResult), elems(mainResult.Errors), elems(mainResult.Warnings), all(keepResultOneOf), elems(keepResultOneOf.Errors), elems(keepResultOneOf.Warnings), mapof(keepResultOneOf.cachedFieldSchemata), mapof(keepResultOneOf.cachedItemSchemata)
+//@   ensures[C04] resP(mainResult) && resP(keepResultOneOf) && !redeemed(s) && arrsOK(mainResult) && arrsOK(keepResultOneOf)
+//@   ensures[C04] forall(k, 0, len(s.oneOfValidators), s.oneOfValidators[k] == nil || s.oneOfValidators[k] == old(s.oneOfValidators[k]))
+//@   ensures[C04] forall(k, 0, len(s.oneOfValidators), implies(!old(s.Options.recycleValidators), s.oneOfValidators[k] == old(s.oneOfValidators[k])))
+//@   ensures[C04] forall(k, 0, len(s.oneOfValidators), implies(old(s.Options.recycleValidators) && s.oneOfValidators[k] != nil, !redeemed(old(s.oneOfValidators[k])) && readySV(old(s.oneOfValidators[k]))))
+//@   ensures[C08] implies(!old(s.Options.recycleValidators), unchanged(all(s)))
+//@   loop 1 invariant[C04] resP(mainResult) && resP(keepResultOneOf) && !redeemed(s) && unchanged(all(s)) && ownsList(s, s.oneOfValidators) && arrsOK(mainResult) && arrsOK(keepResultOneOf)
+//@   loop 1 invariant[C04] forall(k, idx1 + 1, len(s.oneOfValidators), s.oneOfValidators[k] == old(s.oneOfValidators[k]))
+//@   loop 1 invariant[C04] forall(k, idx1 + 1, len(s.oneOfValidators), !redeemed(old(s.oneOfValidators[k])))
+//@   loop 1 invariant[C04] forall(k, idx1 + 1, len(s.oneOfValidators), readySV(old(s.oneOfValidators[k])))
+//@   loop 1 invariant[C04] forall(k, 0, idx1 + 1, ite(old(s.Options.recycleValidators), s.oneOfValidators[k] == nil, s.oneOfValidators[k] == old(s.oneOfValidators[k])))
+//@   loop 1 invariant[C04] (bestFailures == nil || liveRes(bestFailures)) && (firstSuccess == nil || liveRes(firstSuccess)) && (firstSuccess == nil || bestFailures == nil || firstSuccess != bestFailures)
+//@   loop 1 invariant[C04] 0 <= validated && (validated == 0) == (firstSuccess == nil)
+//@ func (*schemaPropsValidator).validateNot
+//@   effects validation
+//@   maypanic
+//@   requires[C06] isJSON(data)
+//@   requires[C04,C06] s.notValidator != nil && entryOK(s.notValidator) && resP(mainResult)
+//@   modifies all(mainResult), elems(mainResult.Errors), elems(mainResult.Warnings)
+//@   ensures[C04] resP(mainResult) && !redeemed(s) && arrsOK(mainResult)
+//@   ensures[C04] ite(old(s.Options.recycleValidators), s.notValidator == nil, s.notValidator == old(s.notValidator))
+//@   ensures[C08] implies(!old(s.Options.recycleValidators), unchanged(all(s)))
 
 // ---------------------------------------------------------------------------
 // C14: exported value helpers implement their textbook definitions (pure: no modifies).
@@ -791,6 +863,7 @@ package validate
 //@   requires[C06,C04] s == nil || readySV(s)
 //@   ensures[C04,C11] s == nil || redeemed(s) == old(s.Options.recycleValidators)
 //@   ensures[C04,C06] result != nil && okResult(result)
+//@   ensures[C04] s == nil || result != emptyResult
 //@   on_panic ensures[C11] s == nil || redeemed(s) == old(s.Options.recycleValidators)
 
 // Array validator: no stored children (one SchemaValidator is built, run and thereby redeemed per element).
